@@ -27,18 +27,16 @@ def _permutable(elems):
     return len(elems) > 1 and all(isinstance(e, (str, sympy.Basic)) for e in elems)
 
 
-class PermSet(_real_set):
-    def __iter__(self):
+def _perm_iter(self, base, f):
         e = Engine.current
         if not _active["on"] or e is None:
-            return _real_set.__iter__(self)
-        f = sys._getframe(1)
+            return base.__iter__(self)
         fn = f.f_code.co_filename
         if not fn.startswith(_REPO):
-            return _real_set.__iter__(self)
-        elems = sorted(_real_set.__iter__(self), key=repr)
+            return base.__iter__(self)
+        elems = sorted(base.__iter__(self), key=repr)
         if not _permutable(elems):
-            return _real_set.__iter__(self)
+            return base.__iter__(self)
         site = "%s:%d" % (os.path.basename(fn), f.f_lineno)
         SITES[site] = SITES.get(site, 0) + 1
         cache = e.__dict__.setdefault("_order_cache", {})
@@ -64,6 +62,18 @@ class PermSet(_real_set):
             cache[key] = order
             e.note("order", site, [repr(x) for x in order])
         return iter(list(cache[key]))
+
+
+class PermFrozenSet(frozenset):
+    """the name `frozenset` in the modules under test: same symbolic iteration order"""
+
+    def __iter__(self):
+        return _perm_iter(self, frozenset, sys._getframe(1))
+
+
+class PermSet(_real_set):
+    def __iter__(self):
+        return _perm_iter(self, _real_set, sys._getframe(1))
 
     # set algebra must keep returning PermSets so that later iterations are still controlled
     def _wrap(self, r):
@@ -104,6 +114,18 @@ class SetShadow(metaclass=_SetShadowMeta):
     """stands for the name `set` in the modules under test"""
 
 
+class _FrozenShadowMeta(type):
+    def __instancecheck__(cls, obj):
+        return isinstance(obj, frozenset)
+
+    def __call__(cls, *a):
+        return PermFrozenSet(*a)
+
+
+class FrozenShadow(metaclass=_FrozenShadowMeta):
+    """stands for the name `frozenset` in the modules under test"""
+
+
 _installed = {"done": False}
 
 
@@ -137,6 +159,7 @@ def install(modules=("listener", "program", "utils", "auxiliary")):
         for m in modules:
             mod = importlib.import_module("blackbird." + m)
             mod.set = SetShadow
+            mod.frozenset = FrozenShadow
         _installed["done"] = True
     _active["on"] = True
 
